@@ -220,6 +220,66 @@ func c09r3(c *Ctx) {
 		}
 		c.Check("CSR field "+f.Name()+" is not read when signing", acc.Pos, !read, det)
 	}
+	// the allowed fields are allowed for what the table says only. Subject: inspected (emptiness), never copied - every
+	// value loaded from below csr.Subject is used by len() or a comparison and nothing else (through phis).
+	subjF := p.Field("crypto/x509", "CertificateRequest", "Subject")
+	nSubj := 0
+	for fn := range reach {
+		if len(fn.Blocks) == 0 {
+			continue
+		}
+		eachInstr(fn, func(ins ssa.Instruction) {
+			fa, ok := ins.(*ssa.FieldAddr)
+			if !ok || fieldVar(fa.X.Type(), fa.Field) != subjF {
+				return
+			}
+			nSubj++
+			var bad ssa.Instruction
+			seen := map[ssa.Value]bool{}
+			var walk func(v ssa.Value)
+			walk = func(v ssa.Value) {
+				if seen[v] || bad != nil {
+					return
+				}
+				seen[v] = true
+				for _, r := range *v.Referrers() {
+					switch x := r.(type) {
+					case *ssa.DebugRef:
+					case *ssa.FieldAddr:
+						walk(x)
+					case *ssa.Field:
+						walk(x)
+					case *ssa.UnOp:
+						if x.Op == token.MUL {
+							walk(x)
+						} else {
+							bad = r
+						}
+					case *ssa.Phi:
+						walk(x)
+					case *ssa.BinOp:
+						if x.Op != token.EQL && x.Op != token.NEQ {
+							bad = r
+						}
+					case *ssa.Call:
+						if bi, ok := x.Call.Value.(*ssa.Builtin); !ok || bi.Name() != "len" {
+							bad = r
+						}
+					default:
+						bad = r
+					}
+				}
+			}
+			walk(fa)
+			pos := fa.Pos()
+			if bad != nil {
+				pos = bad.Pos()
+			}
+			c.Check("CSR Subject is inspected, never copied: "+stableFnName(fn), pos, bad == nil,
+				"a value read from the CSR's Subject flows on (it is stored, passed or returned) instead of only being tested: content of the CSR chosen by the caller - e.g. its CommonName - can end up in the issued certificate, where peers that authenticate by CN (XFCC, dual-use) take it for an identity the caller never authenticated as")
+		})
+	}
+	c.Check("CSR Subject inspection found", entries[0].Pos(), nSubj >= 1, "the dual-use CommonName test on csr.Subject was not found in the signing graph")
 	// the template's ExtraExtensions holds exactly the built SAN extension
 	tf := p.Func(pkgPkiUtil, "", "genCertTemplateFromCSR")
 	build := p.FuncObj(pkgPkiUtil, "", "BuildSubjectAltNameExtension")
@@ -233,7 +293,7 @@ func c09r3(c *Ctx) {
 		okk := len(a) >= 3 && fieldOfLoad(unwrap(a[2])) == pk
 		c.Check("certificate binds the CSR's public key", call.Pos(), okk, "GenCertFromCSR is not given csr.PublicKey")
 	}
-	c.Floor(12)
+	c.Floor(14)
 	_ = n
 }
 
